@@ -213,6 +213,10 @@ for e in ENC:
         else:
             # maximum-size round trips cost ~8 min each: thorough only
             enc_harness("C01", e, own="own", tier="t" if (e["big"] and e["short"] != "vendor_pci247") else None)
+for a in (0, 1):
+    for b in (0, 1):
+        add("c07__q__resp_eid_twice_%d%d" % (a, b), 40, "ign", "enc::resp_eid_twice::<_, C07, %d, %d>" % (a, b))
+add("c13__q__resp_eid_twice_10", 40, "ign", "enc::resp_eid_twice::<_, C13, 1, 0>")
 # C06 finding: Query Hop command code — the C06 harness for it is the witness
 L[:] = [x for x in L if x[0] != "c06__q__req_query_hop"]
 add("c06__w__req_query_hop", 92, "ign", "enc::run::<_, C06, enc::ReqQueryHop, 88>")
